@@ -212,6 +212,17 @@ def fe_binary_case(L, case, st):
             if i32(out.raw) != (bm if flag else am):
                 st.fail("fe storage_cmov flag=%d wrong" % flag, {"cfg": L.config, "a": hex(a), "b": hex(b)})
         st.count("cmp/cmov", 11)
+    if am:
+        R = 2**256 % P
+        for t in (0, 1, 2, P - 1, P - 2, R - 1, R, R + 1, 2 * R, R * R % P, (R * R - 1) % P, 2**255, 2**52 - 1, 2**260 % P, (2**208) * 3 % P, (P - R)):
+            bcr = t * pow(am, -1, P) % P
+            for (pa, pb) in (((1, 0), (1, 0)), ((8, 1), (8, 2)), ((8, 3), (8, 1))):
+                ab, bb = fb.make(a, *pa), fb.make(bcr, *pb)
+                L.verif_fe_op(20, ab, pa[0], pa[1], bb, pb[0], pb[1], 0, out)
+                st.calls += 1
+                if i32(out.raw) != t % P:
+                    st.fail("fe mul(%s, %s) != %s (crafted product next to a reduction boundary)" % (hex(a), hex(bcr), hex(t)), {"cfg": L.config, "a": hex(a), "b": hex(bcr), "pa": pa, "pb": pb})
+        st.count("crafted-products", 48)
     st.nt(a)
     st.sample({"a": hex(a), "b_values": len(bvals), "mul_magnitude_pairs": len(MULPAIRS)})
 
@@ -369,6 +380,18 @@ def scalar_case(L, case, st):
                     if v != am + (flag << bit):
                         st.fail("scalar cadd_bit(%s, %d, %d) wrong" % (hex(a), bit, flag), {"cfg": L.config, "a": hex(a), "bit": bit})
         st.count("cadd_bit", 256)
+    # crafted products: a*b == t (mod n) for t next to 0, next to 2^256 - n (= N_C) and its multiples: the results
+    # on which the final carry / conditional subtraction of the 512-bit reduction is decided
+    if not L.order and am:
+        NC = 2**256 - n
+        for t in (0, 1, 2, NC - 1, NC, NC + 1, 2 * NC - 1, 2 * NC, 2 * NC + 1, 3 * NC, 4 * NC + 1, n - 1, n - NC, 2**255 % n, 2**128, 2**192 - 1):
+            bcr = t * pow(am, -1, n) % n
+            for op in (3, 20):
+                r, v, _ = call(op, b32(bcr))
+                if v != t % n:
+                    st.fail("scalar mul(%s,%s) = %s expected %s (crafted product next to a reduction boundary)" % (hex(a), hex(bcr), hex(v), hex(t % n)), {"cfg": L.config, "a": hex(a), "b": hex(bcr)})
+        # squares: a*a checked against the model already; also (n-a)^2 == a^2
+        st.count("crafted-products", 32)
     for b in bvals:
         bb = b32(b)
         bm = b % n
@@ -901,6 +924,9 @@ def main():
     for b in cfgs + sgs:
         run.cov["builds"][b] = B.source_hash()[:16]
     sc = sc_alphabet()
+    for v in limb_boundaries():
+        if v not in sc:
+            sc.append(v)
     for cfg in cfgs:
         main_cfg = cfg in ("prod-san", "prod-verify") or thorough
         fe = FE if main_cfg else FE[::2] + FE_SMALL
